@@ -1,9 +1,9 @@
-Base/Tactics.vo Base/Tactics.glob Base/Tactics.v.beautified Base/Tactics.required_vo: Base/Tactics.v 
-Base/Tactics.vio: Base/Tactics.v 
-Base/Tactics.vos Base/Tactics.vok Base/Tactics.required_vos: Base/Tactics.v 
 Base/Prelude.vo Base/Prelude.glob Base/Prelude.v.beautified Base/Prelude.required_vo: Base/Prelude.v 
 Base/Prelude.vio: Base/Prelude.v 
 Base/Prelude.vos Base/Prelude.vok Base/Prelude.required_vos: Base/Prelude.v 
+Base/Tactics.vo Base/Tactics.glob Base/Tactics.v.beautified Base/Tactics.required_vo: Base/Tactics.v Base/Prelude.vo
+Base/Tactics.vio: Base/Tactics.v Base/Prelude.vio
+Base/Tactics.vos Base/Tactics.vok Base/Tactics.required_vos: Base/Tactics.v Base/Prelude.vos
 Base/Fixed.vo Base/Fixed.glob Base/Fixed.v.beautified Base/Fixed.required_vo: Base/Fixed.v Base/Prelude.vo
 Base/Fixed.vio: Base/Fixed.v Base/Prelude.vio
 Base/Fixed.vos Base/Fixed.vok Base/Fixed.required_vos: Base/Fixed.v Base/Prelude.vos
@@ -40,3 +40,6 @@ Proofs/RegistryP.vos Proofs/RegistryP.vok Proofs/RegistryP.required_vos: Proofs/
 Props/C12.vo Props/C12.glob Props/C12.v.beautified Props/C12.required_vo: Props/C12.v Base/Tactics.vo Base/Prelude.vo Base/Fixed.vo Model/Types.vo Model/Registry.vo Proofs/RegistryP.vo
 Props/C12.vio: Props/C12.v Base/Tactics.vio Base/Prelude.vio Base/Fixed.vio Model/Types.vio Model/Registry.vio Proofs/RegistryP.vio
 Props/C12.vos Props/C12.vok Props/C12.required_vos: Props/C12.v Base/Tactics.vos Base/Prelude.vos Base/Fixed.vos Model/Types.vos Model/Registry.vos Proofs/RegistryP.vos
+Proofs/DispatcherP.vo Proofs/DispatcherP.glob Proofs/DispatcherP.v.beautified Proofs/DispatcherP.required_vo: Proofs/DispatcherP.v Base/Tactics.vo Base/Prelude.vo Base/Fixed.vo Base/FMap.vo Model/Types.vo Model/Env.vo Model/Dispatcher.vo
+Proofs/DispatcherP.vio: Proofs/DispatcherP.v Base/Tactics.vio Base/Prelude.vio Base/Fixed.vio Base/FMap.vio Model/Types.vio Model/Env.vio Model/Dispatcher.vio
+Proofs/DispatcherP.vos Proofs/DispatcherP.vok Proofs/DispatcherP.required_vos: Proofs/DispatcherP.v Base/Tactics.vos Base/Prelude.vos Base/Fixed.vos Base/FMap.vos Model/Types.vos Model/Env.vos Model/Dispatcher.vos
